@@ -187,11 +187,12 @@ func TestVerifShachain(t *testing.T) {
 
 			// Starting position: usually 0; sometimes a structured far
 			// position reached through the codec (bit patterns 2^j, 2^j±1,
-			// long runs of ones, random 47-bit values).
+			// long runs of ones, random 48-bit values — i.e. also the upper
+			// half of the index space where all 48 buckets are in use).
 			switch r.intn(6) {
 			case 0:
 				kind = "far"
-				j := uint(r.intn(47))
+				j := uint(r.intn(48))
 				switch r.intn(4) {
 				case 0:
 					k = uint64(1) << j
@@ -200,7 +201,12 @@ func TestVerifShachain(t *testing.T) {
 				case 2:
 					k = (uint64(1) << j) - 1
 				default:
-					k = r.u64() & ((1 << 47) - 1)
+					k = r.u64() & ((1 << 48) - 1)
+				}
+				// keep clear of the very end of the index space (the
+				// 2^48-th insert is outside the property's guard)
+				if k > (1<<48)-4096 {
+					k -= 4096
 				}
 				if k == 0 {
 					k = 1
